@@ -400,9 +400,35 @@ def make_entries(rng, extents, names, body_rng=None, sweep=None):
             m = sweep[i]
             ex = (ex & 0xFFFF) | (((m >> 6) & 3) << 16)
             load = (load & 0xFFFF) | (((m >> 2) & 3) << 16)
-        body = brng.randbytes(length) if length else b''
+        body = gen_body(brng, length)
         out.append(Entry(d, nm, rng.random() < 0.3, load, ex, length, start, body))
     return out
+
+
+def gen_body(rng, length):
+    """file body: mostly random bytes; sometimes text with CR-terminated lines
+    (short lines, empty lines, CR as the very last byte or missing, CR CR runs,
+    CRs landing on sector boundaries), sometimes a single repeated byte"""
+    if length == 0:
+        return b''
+    k = rng.random()
+    if k < 0.72:
+        return rng.randbytes(length)
+    if k < 0.8:
+        return bytes([rng.choice([0x0D, 0x00, 0xFF, 0x20, 0x7F, 0x0A])]) * length
+    out = bytearray()
+    maxline = rng.choice([0, 1, 3, 10, 40, 255])
+    while len(out) < length:
+        n = rng.randint(0, maxline)
+        out += bytes(rng.choice(b'ABCDEFGHIJKLMNOPQRSTUVWXYZ 0123456789.,\x7f\x80\x0a\x09') for _ in range(n))
+        out.append(0x0D)
+    out = out[:length]
+    if rng.random() < 0.5:
+        out[-1] = rng.choice([0x0D, 0x41])
+    for b in range(255, length, 256):
+        if rng.random() < 0.3:
+            out[b] = 0x0D          # CR as the last byte of a sector
+    return bytes(out)
 
 
 def catalogue_order(entries):
